@@ -9,7 +9,7 @@
    RP.TmgrSched.Oracle that the harness applies to the implementation's trace. *)
 From Coq Require Import ZArith List Bool.
 From RP Require Import Gen.StatesTables States.Model States.Inst
-  TmgrSched.Model TmgrSched.Oracle TmgrSched.Proofs TmgrSched.Proofs2 TmgrSched.Balance TmgrSched.Proofs3 TmgrSched.Proofs4.
+  TmgrSched.Model TmgrSched.Oracle TmgrSched.Proofs TmgrSched.Proofs2 TmgrSched.Balance TmgrSched.Proofs3 TmgrSched.Proofs4 TmgrSched.Lin TmgrSched.Proofs5.
 Import ListNotations.
 Open Scope Z_scope.
 
@@ -226,6 +226,25 @@ Example C12_used_negative_needs_duplicate_uid :
               OSubmit [mkTask 1 (Some 9) 5]; OTStates [(1, T_DONE, 1)]] in
   map (fun r => snd (fst r)) (run c st0 ops) = [None; None; None; Some ERuntime].
 Proof. vm_compute. reflexivity. Qed.
+
+(* concurrency: the entry points of the scheduler are called from three
+   threads (work, control, state subscriber).  The specification the harness
+   checks every interleaving against is this model's step function applied to
+   the two messages one after the other, in either order (TmgrSched.Lin.seq2;
+   the task dicts of a notification are those of the state before the pair).
+   Whatever the order, the sequential outcome is "exactly once": every
+   submitted task is, with multiplicity, either held back or handed on -- the
+   clause lin_exactly_once which the harness evaluates on the implementation's
+   interleaved outcomes *)
+Theorem C12_lin_spec_exactly_once :
+  forall (c : cfg) (prefix : list op) (a b : op) (u : Z) s1 ev1 e1 s2 ev2 e2,
+    let s0 := fst (run_st c st0 prefix) in
+    let ev0 := snd (run_st c st0 prefix) in
+    step_at c s0 s0 a = (s1, ev1, e1) -> step_at c s0 s1 b = (s2, ev2, e2) ->
+    countz u (uids (submitted (prefix ++ [a; b]))) =
+    countz u (waiting s2) + countz u (fwd_uids (ev0 ++ ev1 ++ ev2)).
+Proof. exact lin_spec_exactly_once. Qed.
+Print Assumptions C12_lin_spec_exactly_once.
 
 (* non-vacuity: a concrete backfilling history with an early-bound task, a
    pilot that fills up to its high-water mark, a removal and a re-add *)
